@@ -76,8 +76,11 @@ func (a *HMACAuth) Verify(r *http.Request, requestPath string, body []byte) erro
 		return ErrUnauthorized
 	}
 	t := time.Unix(ts, 0).UTC()
+	// Read the clock once: the tolerance check and the nonce cache must judge
+	// the request at the same instant.
+	at := now().UTC()
 	if a.Tolerance > 0 {
-		d := now().UTC().Sub(t)
+		d := at.Sub(t)
 		if d < -a.Tolerance || d > a.Tolerance {
 			return ErrUnauthorized
 		}
@@ -88,7 +91,7 @@ func (a *HMACAuth) Verify(r *http.Request, requestPath string, body []byte) erro
 	} else {
 		a.nonce.setNow(now)
 	}
-	if !a.nonce.seenOnce(nonce, t.Add(a.Tolerance)) {
+	if !a.nonce.seenOnceAt(nonce, t.Add(a.Tolerance), at) {
 		return ErrUnauthorized
 	}
 
@@ -163,6 +166,16 @@ func (c *nonceCache) setNow(now func() time.Time) {
 }
 
 func (c *nonceCache) seenOnce(nonce string, expiresAt time.Time) bool {
+	c.mu.Lock()
+	now := c.now().UTC()
+	c.mu.Unlock()
+	return c.seenOnceAt(nonce, expiresAt, now)
+}
+
+// seenOnceAt records nonce as of now. An entry is remembered up to and
+// including its expiry instant (signed timestamp + tolerance), which is the
+// last instant at which the timestamp check still accepts the request.
+func (c *nonceCache) seenOnceAt(nonce string, expiresAt time.Time, now time.Time) bool {
 	if nonce == "" {
 		return false
 	}
@@ -171,14 +184,13 @@ func (c *nonceCache) seenOnce(nonce string, expiresAt time.Time) bool {
 	defer c.mu.Unlock()
 
 	// Opportunistic cleanup.
-	now := c.now().UTC()
 	for k, exp := range c.m {
-		if !now.Before(exp) {
+		if now.After(exp) {
 			delete(c.m, k)
 		}
 	}
 
-	if exp, ok := c.m[nonce]; ok && now.Before(exp) {
+	if exp, ok := c.m[nonce]; ok && !now.After(exp) {
 		return false
 	}
 	c.m[nonce] = expiresAt.UTC()
